@@ -204,3 +204,62 @@ pub fn large(spec: SpecId, n: usize) -> Case {
     }
     Case::new(format!("large{n}"), spec, db, txs)
 }
+
+/// tx0: slot0 := 1; tx1: if slot0 == 0 { slot1 := 9 } else { slot3 := BALANCE(z) + 1 }; tx2: slot2 :=
+/// slot1 + 5. A stale first incarnation of tx1 writes slot1; its retry reads the account `z`
+/// instead (a key only the retry reads) and drops slot1 from its write set. With a fail-once fault
+/// on `z` the retry *fails* first and succeeds later: the stale slot1 version must still disappear,
+/// or tx2 waits for ever on an estimate of a transaction that is long final (seeded change C05c).
+pub fn retry_reads_more(spec: SpecId) -> (Case, DbKey) {
+    use crate::world::op::*;
+    let z = eoa(5);
+    let code = Asm::new()
+        .push(0)
+        .op(CALLDATALOAD)
+        .op(DUP1)
+        .push(1)
+        .op(EQ)
+        .push_label("op1")
+        .op(JUMPI)
+        .op(DUP1)
+        .push(2)
+        .op(EQ)
+        .push_label("op2")
+        .op(JUMPI)
+        .push(1)
+        .push(0)
+        .op(SSTORE)
+        .op(STOP)
+        .label("op1")
+        .push(0)
+        .op(SLOAD)
+        .push_label("fresh")
+        .op(JUMPI)
+        .push(9)
+        .push(1)
+        .op(SSTORE)
+        .op(STOP)
+        .label("fresh")
+        .push_addr(z)
+        .op(BALANCE)
+        .push(1)
+        .op(ADD)
+        .push(3)
+        .op(SSTORE)
+        .op(STOP)
+        .label("op2")
+        .push(1)
+        .op(SLOAD)
+        .push(5)
+        .op(ADD)
+        .push(2)
+        .op(SSTORE)
+        .op(STOP)
+        .build();
+    let mut db = MemDb::default();
+    rich(&mut db, 3);
+    db.fund(z, U256::from(77u64), 0);
+    db.deploy(contract(13), code);
+    let txs = (0..3).map(|i| (format!("rrm.op{i}(e{i})"), call(eoa(i), 0, contract(13), &[word(i)]))).collect();
+    (Case::new("retry-reads-more", spec, db, txs), DbKey::Basic(z))
+}
